@@ -97,6 +97,10 @@ def tbl_comp(rng, tag, pal, as_table, p=0.6):
         kw["text_background_color"] = pick(rng, pal)
     if rng.random() < 0.5:
         kw["text_font"] = rng.randint(1, 10)
+    if as_table:
+        for side in ("left", "right", "top", "bottom"):
+            if rng.random() < 0.2:
+                kw[f"border_color_{side}"] = pick(rng, pal)
     return kw
 
 
@@ -139,6 +143,9 @@ def header(rng, pal, nc, base=0):
         kw["text_background_color"] = pick(rng, pal)
     if rng.random() < 0.4:
         kw["text_font"] = rng.randint(1, 10)
+    for side in ("left", "right", "top", "bottom"):
+        if rng.random() < 0.2:
+            kw[f"border_color_{side}"] = pick(rng, pal)
     return [kw]
 
 
@@ -223,6 +230,9 @@ def requests(spec):
         if isinstance(c, dict):
             req[f"{tag}0"] = {"fg": c.get("text_color", ""), "bg": c.get("text_background_color", ""),
                               "font": c.get("text_font", 1)}
+            for side in ("left", "right", "top", "bottom"):
+                if f"border_color_{side}" in c:
+                    req[f"{tag}0"]["b" + side[0]] = c[f"border_color_{side}"]
     secs = spec["sections"] if spec.get("kind") == "multi" else ([spec] if spec.get("kind", "table") == "table" else [])
     for sec in secs:
         body = sec.get("body", {})
@@ -244,6 +254,9 @@ def requests(spec):
                     req[tag] = {"fg": per_line(kw.get("text_color", ""), j),
                                 "bg": per_line(kw.get("text_background_color", ""), j),
                                 "font": per_line(kw.get("text_font", 1), j)}
+                    for side in ("left", "right", "top", "bottom"):
+                        if f"border_color_{side}" in kw:
+                            req[tag]["b" + side[0]] = kw[f"border_color_{side}"]
         elif h == "default":
             for j in range(nc):
                 req.setdefault(f"N{j}", {"fg": "", "bg": "", "font": 1})
@@ -313,7 +326,7 @@ def check_spec(ctx, spec, ctxhook):
         return
     doc = R.parse(o.out)
     ctx.count("docs_parsed")
-    mech = {"multi": "no_colour_context_multi_section", "figure": "no_colour_context_figure"}.get(kind)
+    mech = None
     ncol = len(doc.colors) if doc.colors is not None else 0
     if wanted and doc.colors is None and any(True for _ in iter_runs(doc)):
         # a colour table is required when a non-default colour is *used* in the output
@@ -391,6 +404,9 @@ def check_spec(ctx, spec, ctxhook):
             for side in "lrtb":
                 want = q.get("b" + side)
                 b = cdef.borders.get(side)
+                if b is not None and want and want != "black" and not b.get("cf"):
+                    ctx.violation(f"{tag}: border colour '{want}' requested on side {side} but \\brdrcf is "
+                                  f"absent/0", case, {"tag": tag, "side": side, "mech": mech})
                 if b and b.get("cf"):
                     i = b["cf"]
                     got = doc.colors[i] if doc.colors and i < len(doc.colors) else "out-of-range"
